@@ -2,7 +2,7 @@
 import re
 
 from engine.mir import E, apath, strip_refs, is_const, const_val, callee_name, self_path
-from engine.analyses import leaf_assign, switches_on, chain
+from engine.analyses import leaf_assign, switches_on, chain, contains_call
 from engine.program import AnchorError
 from engine import tables
 
@@ -116,6 +116,7 @@ def layout_table(prog):
     for path, env, conds in paths:
         keys = None
         other = []
+        other_allv = {}
         for (d, vals, allv, ty, bb) in conds:
             ds = strip_refs(d)
             if ds.k == "arg" and ds.a[0] == 2:
@@ -126,6 +127,7 @@ def layout_table(prog):
                     keys = cur if keys is None else (keys & cur)
             else:
                 other.append((ds, vals))
+                other_allv[id(ds)] = allv
         val = env.get(0)
         last_call = [bb for (bb, _) in path if b.blocks[bb]["term"]["k"] == "call"]
         row = {"bb": last_call[-1] if last_call else path[-1][0], "val": val, "other": other}
@@ -138,6 +140,62 @@ def layout_table(prog):
                 row["literal"] = const_val(lit) if is_const(lit, "str") else None
                 row["recv"] = args[0]
                 row["third"] = strip_refs(args[2])
+        # an arm driven by a constant table: `TABLE.iter().find(|(code, _)| *code == key)` — on the Some edge every table row is an arm of its own
+        tab = None
+        for (ds, vals_) in other:
+            if ds.k != "discr":
+                continue
+            fc = contains_call(ds, lambda n: n.endswith("Iterator>::find") or n.endswith("Iterator::find"))
+            if fc is None or len(fc.a[1]) != 2:
+                continue
+            clo = strip_refs(fc.a[1][1])
+            tv = None
+            for x in fc.a[1][0].walk():
+                if x.k == "const" and isinstance(x.t, dict) and "value" in x.t and "array" in x.t["value"]:
+                    tv = x.t["value"]["array"]
+            if tv is None or not (clo.k == "agg" and str(clo.a[0]).startswith("closure:")):
+                continue
+            from engine.analyses import PredEval
+            shape = PredEval(prog)._eq_closure_shape(clo.a[0][8:])
+            ups = [strip_refs(u) for u in clo.a[1]]
+            if shape is None or len(shape[0]) != 1 or shape[1] >= len(ups):
+                continue
+            up = ups[shape[1]]
+            while up.k in ("ref", "deref"):
+                up = up.a[0]
+            if not (up.k == "arg" and up.a[0] == 2):
+                continue
+            allv_ = other_allv.get(id(ds), ())
+            is_some_ = vals_ == (1,) or (vals_ == "otherwise" and 0 in allv_ and 1 not in allv_)
+            is_none_ = vals_ == (0,) or (vals_ == "otherwise" and 1 in allv_ and 0 not in allv_)
+            if not (is_some_ or is_none_):
+                continue
+            tab = (tv, shape[0][0], is_some_)
+        if tab is not None and keys is None:
+            keys = set(universe)
+        if tab is not None:
+            tv, kidx, is_some = tab
+            tkeys = [r_["tuple"][kidx] for r_ in tv if "tuple" in r_ and isinstance(r_["tuple"][kidx], int)]
+            if is_some:
+                # which component of the row is handed to the helper as the entry name
+                lit_idx = None
+                if v is not None and v.k == "call" and len(v.a[1]) == 3:
+                    a1 = v.a[1][1]
+                    while a1.k in ("ref", "deref"):
+                        a1 = a1.a[0]
+                    if a1.k == "field" and isinstance(a1.a[1], (int, str)) and str(a1.a[1]).isdigit() and contains_call(a1, lambda n: n.endswith("::find")) is not None:
+                        lit_idx = int(a1.a[1])
+                seen_first = set()
+                for r_ in tv:
+                    kc = r_["tuple"][kidx]
+                    if kc in seen_first or kc not in keys:
+                        continue
+                    seen_first.add(kc)
+                    rr = dict(row)
+                    rr["literal"] = r_["tuple"][lit_idx].get("str") if lit_idx is not None and isinstance(r_["tuple"][lit_idx], dict) else None
+                    rows[kc] = rr
+                continue
+            keys = keys - set(tkeys)
         if keys is None:
             keys = set(universe)
         if len(keys) > 4096:
@@ -513,9 +571,9 @@ def pure_table_accessors(rule, prog, owner_ty, want=None):
         imp = f.get("impl") or {}
         if (imp.get("self") or "") != owner_ty or imp.get("trait") or f.get("kind") == "Closure" or len(f.get("inputs") or []) != 2:
             continue
-        b = _roles.ib(prog, k)
+        b = _roles.ib(prog, k)            # (accessors of a private struct the owner embeds are spliced in: the table is then self.<part>.<table>)
         gets = [(bb, t) for (bb, t) in b.calls() if callee_name(t).endswith("::get") and "HashMap" in callee_name(t)
-                and self_path(b.expr_operand(t["args"][0])) is not None and len(self_path(b.expr_operand(t["args"][0]))) == 1]
+                and self_path(b.expr_operand(t["args"][0])) is not None and 1 <= len(self_path(b.expr_operand(t["args"][0]))) <= 2]
         if not gets:
             continue
         short = k.rsplit("::", 1)[-1]
@@ -548,5 +606,5 @@ def pure_table_accessors(rule, prog, owner_ty, want=None):
         if contains_call(ret, lambda nm: nm == callee_name(gt)) is None:
             rule.violation(key, "%s does not return what the table look-up found (%r)" % (short, strip_refs(ret)), fn_line(prog, k))
             continue
-        rule.ok(key, "%s(x) = self.%s.get(x) on every path, nothing else decides the result" % (short, self_path(b.expr_operand(gt["args"][0]))[0]))
+        rule.ok(key, "%s(x) = self.%s.get(x) on every path, nothing else decides the result" % (short, ".".join(self_path(b.expr_operand(gt["args"][0])))))
     return n
